@@ -11,6 +11,8 @@
 import TypedpyModel.Lemmas.SchemaAdmits
 import TypedpyModel.Lemmas.SchemaWf
 import TypedpyModel.Lemmas.SchemaExact
+import TypedpyModel.Lemmas.SchemaDialect
+import TypedpyModel.Lemmas.SchemaDefs
 namespace Typedpy.C08
 open Typedpy Typedpy.Sch
 
@@ -30,11 +32,25 @@ def C08_wellformed_statement : Prop :=
   ∀ cls : FieldDecl, raises cls = false →
     wfDocument (dialectFix (toSchema cls).1) (fixDefs (toSchema cls).2) = true
 
+/-- **the dialect rewrite is exactly the emission with the two draft-4 spellings** — for EVERY
+    class declaration (any nesting, defaults, field wrappers, raising kinds included): the schema
+    and the definitions `structure_to_schema` returns, rewritten by the documented two-rule
+    `dialectFix` (`multiplesOf` → `multipleOf`, `not: [..]` → `not: {anyOf: [..]}`, at schema
+    positions only), are `classSchema true` / `classDefs true`, the objects the lemmas speak about. -/
+theorem dialect_fix_is_emit_true (cls : FieldDecl) :
+    dialectFix (toSchema cls).1 = classSchema true cls
+    ∧ fixDefs (toSchema cls).2 = classDefs true cls
+    ∧ fixedPtrDefs cls = ptrDefs (classDefs true cls) :=
+  ⟨c08_fix_classSchema cls, c08_fix_classDefs cls, c08_fixedPtrDefs_eq cls⟩
+
+/-- field level of `dialect_fix_is_emit_true`, every declaration -/
+theorem dialect_fix_field (f : FieldDecl) : dialectFix (emit false f) = emit true f := c08_fix_emit f
+
 /-- **schema_admits (partial).**  For every class declaration in the fragment (unbounded nesting),
     every regular-expression oracle pair with `match ⇒ search`, every instance in the region (deeply
     well-formed, outside the known-finding regions) and every fuel that covers the nesting of class
-    references: the emitted schema (with the two draft-4 spellings) accepts the serialization.
-    `ClassRefsFaithful` says that no two different classes share a `__name__`. -/
+    references: the schema `structure_to_schema` returns, after the dialect rewrite, accepts the
+    serialization.  `ClassRefsFaithful` says that no two different classes share a `__name__`. -/
 theorem schema_admits_partial (O : Oracles) (S : String → String → Bool)
     (hS : ∀ p s, O.reMatch p s = true → S p s = true) (cls : FieldDecl) (x j : PyVal) (n : Nat)
     (hfrag : inSchemaFragment cls = true)
@@ -42,8 +58,10 @@ theorem schema_admits_partial (O : Oracles) (S : String → String → Bool)
     (hn : refDepth cls ≤ n)
     (hreg : inAdmitRegion O cls x = true)
     (hser : serialize O cls x = .ok j) :
-    jsValidFuel n (fixedPtrDefs cls) S (classSchema true cls) j = true :=
-  admits_class O S hS (fixedPtrDefs cls) cls x j n hfrag hrefs hn hreg hser
+    schemaAccepts S cls n j = true := by
+  unfold schemaAccepts
+  rw [(dialect_fix_is_emit_true cls).1]
+  exact admits_class O S hS (fixedPtrDefs cls) cls x j n hfrag hrefs hn hreg hser
 
 /-- the region of `schema_admits_partial` contains only well-formed instances of the class -/
 theorem region_instances_wellformed (O : Oracles) (cls : FieldDecl) (x : PyVal)
@@ -72,19 +90,27 @@ theorem wrapper_admits_partial (O : Oracles) (S : String → String → Bool)
   admits_wrapper O S hS D c name f v j n hcol hfrag hrefs hn hc hreg hser
 
 /-- **schema_wellformed (partial).**  For every class declaration in the well-formedness fragment
-    (unbounded nesting) whose class references are faithful, the emitted schema (with the two
-    draft-4 spellings) is a well-formed draft-4 schema: every keyword value has the type and range
-    the meta-schema demands and every `$ref` resolves in the returned definitions
-    (`refs_resolve` is the `$ref` clause of `wfDraft4`). -/
-theorem schema_wellformed_partial (cls : FieldDecl) (hfrag : inWfFragment cls = true)
-    (hrefs : ClassRefsFaithful (fixedPtrDefs cls) cls) :
-    wfDraft4 (fixedPtrDefs cls) (classSchema true cls) = true :=
-  wf_class (fixedPtrDefs cls) cls hfrag hrefs
+    (unbounded nesting; defaults that are JSON values included) the WHOLE document
+    `structure_to_schema` returns is well-formed after the dialect rewrite: the schema and every
+    definition in the definitions table satisfy the draft-4 meta-schema keyword by keyword, and every
+    `$ref` anywhere in them resolves inside the returned definitions.  No hypothesis on class names:
+    a `__name__` shared by two classes makes a definition wrong (`counterexample_name_collision`),
+    not ill-formed. -/
+theorem schema_wellformed_partial (cls : FieldDecl) (hfrag : inWfFragment cls = true) :
+    wfDocument (dialectFix (toSchema cls).1) (fixDefs (toSchema cls).2) = true :=
+  c08_wf_document_fixed cls hfrag
 
-/-- field level, any nesting depth (this is also what makes every definition well-formed: the
-    definition of a referenced class is the `classSchema` of that class) -/
+/-- **every `$ref` resolves** — for EVERY class declaration (no fragment at all): each class
+    reference at any depth points at a name that the returned definitions define -/
+theorem definitions_refs_resolve (cls : FieldDecl) : ClassRefsResolve (fixedPtrDefs cls) cls := by
+  rw [(dialect_fix_is_emit_true cls).2.2]
+  cases cls with
+  | struct c fields defaults => exact c08_resolves_defsAccP true fields []
+  | _ => trivial
+
+/-- field level, any nesting depth, against any pointer table in which the class references resolve -/
 theorem field_wellformed_partial (D : Defs) (f : FieldDecl) (hfrag : wfFragF f = true)
-    (hrefs : RefsFaithful D f) : wfDraft4 D (emit true f) = true :=
+    (hrefs : RefsResolve D f) : wfDraft4 D (emit true f) = true :=
   wf_field D f hfrag hrefs
 
 /-- **schema_exact (partial, field level).**  On the exact scalar sub-fragment (Integer with
@@ -273,6 +299,25 @@ theorem fixed_multiple_of_negative :
     ∧ wfOf (flat "K" ["a"] [("a", .integer { mult := some (-2) }), ("b", .boolean)]) = true
     ∧ verdict (flat "K" ["a"] [("a", .integer { mult := some (-2) }), ("b", .boolean)])
         (.inst "K" [("a", .int (-4))]) = true := by decide
+
+def exDefaults : FieldDecl :=
+  flat "K" ["a"] [("a", .integer {}), ("c", .enumCls "Color" ["RED", "GREEN"]),
+                  ("l", .seqOf .list (.string none none none) {}), ("i", exInner)]
+    [("c", .enumv "Color" "GREEN"), ("l", .list [.str "x", .str "y"])]
+
+/-- defaults that are JSON values (an enum member by its name, a list of strings) are inside
+    `schema_wellformed_partial`; the definitions table (here: `Inner`) is part of the statement -/
+theorem wellformed_defaults_example :
+    inWfFragment exDefaults = true ∧ wfOf exDefaults = true
+    ∧ (toSchema exDefaults).2.length = 1 := by decide
+
+/-- finding `ill-formed:default:not-json`: a default that is a list of enum members (or a set, a
+    tuple) is written into the schema verbatim -/
+theorem counterexample_default_not_json :
+    raises (flat "K" ["a"] [("a", .integer {}), ("l", .seqOf .list (.enumCls "Color" ["RED", "GREEN"]) {})]
+      [("l", .list [.enumv "Color" "RED"])]) = false
+    ∧ wfOf (flat "K" ["a"] [("a", .integer {}), ("l", .seqOf .list (.enumCls "Color" ["RED", "GREEN"]) {})]
+      [("l", .list [.enumv "Color" "RED"])]) = false := by decide
 
 /-- finding `exact:positional-shorter`: positional `Tuple` / `Array` items carry no `minItems`, so
     a shorter array is admitted by the schema and rejected by the Deserializer -/
